@@ -130,6 +130,58 @@ def _parse_sig_node(n: ast.AST) -> List[Tuple[str, int]]:
     raise AnalysisError(f"cannot parse gufunc signature {ast.unparse(n)!r}")
 
 
+class _Unreadable(list):
+    """Stand-in for a signature list the loader cannot evaluate statically: any attempt to look at it is an ANALYSIS-ERROR."""
+
+    def __init__(self, msg: str):
+        super().__init__()
+        self.msg = msg
+
+    def _fail(self, *a, **k):
+        raise AnalysisError(self.msg)
+
+    __iter__ = __len__ = __getitem__ = __bool__ = __contains__ = _fail
+
+
+def _static_sig_list(sigs: ast.AST) -> List[ast.AST]:
+    """The signature nodes of a guvectorize call. A literal list is taken as written; a comprehension over a literal sequence of constants whose
+    element is an f-string / constant / tuple built from the loop variable is unrolled (pure constant folding, nothing is executed)."""
+    if isinstance(sigs, ast.List):
+        return list(sigs.elts)
+    if isinstance(sigs, ast.ListComp) and len(sigs.generators) == 1:
+        g = sigs.generators[0]
+        if not g.ifs and not g.is_async and isinstance(g.target, ast.Name) and isinstance(g.iter, (ast.Tuple, ast.List)) \
+                and all(isinstance(e, ast.Constant) and isinstance(e.value, str) for e in g.iter.elts):
+            var = g.target.id
+
+            def fold(e: ast.AST, val: str) -> Optional[ast.AST]:
+                if isinstance(e, ast.Constant):
+                    return e
+                if isinstance(e, ast.Name) and e.id == var:
+                    return ast.Name(id=val, ctx=ast.Load())
+                if isinstance(e, ast.JoinedStr):
+                    out = ""
+                    for part in e.values:
+                        if isinstance(part, ast.Constant) and isinstance(part.value, str):
+                            out += part.value
+                        elif isinstance(part, ast.FormattedValue) and isinstance(part.value, ast.Name) and part.value.id == var \
+                                and part.conversion == -1 and part.format_spec is None:
+                            out += val
+                        else:
+                            return None
+                    return ast.Constant(value=out)
+                if isinstance(e, ast.Tuple):
+                    elts = [fold(x, val) for x in e.elts]
+                    return None if any(x is None for x in elts) else ast.Tuple(elts=elts, ctx=ast.Load())
+                if isinstance(e, ast.Subscript) and isinstance(e.value, ast.Name) and e.value.id == var:
+                    return ast.Subscript(value=ast.Name(id=val, ctx=ast.Load()), slice=e.slice, ctx=ast.Load())
+                return None
+            nodes = [fold(sigs.elt, c.value) for c in g.iter.elts]
+            if all(n is not None for n in nodes):
+                return [ast.fix_missing_locations(n) for n in nodes]
+    return [sigs]
+
+
 def parse_layout(layout: str):
     ins, outs = layout.split("->")
 
@@ -186,9 +238,14 @@ def load_kernels(repo: Repo) -> Dict[str, Kernel]:
                 if len(call.args) < 2:
                     raise AnalysisError(f"guvectorize needs signatures and layout: {m.rel}:{fn.name}")
                 sigs = call.args[0]
-                nodes = sigs.elts if isinstance(sigs, ast.List) else [sigs]
-                k.sigs = [_parse_sig_node(n) for n in nodes]
-                k.layouts = [sig_layouts(n) for n in nodes]
+                nodes = _static_sig_list(sigs)
+                try:
+                    k.sigs = [_parse_sig_node(n) for n in nodes]
+                    k.layouts = [sig_layouts(n) for n in nodes]
+                except AnalysisError as exc:
+                    # a signature list this loader cannot read stops exactly the rules that consult this kernel's signatures
+                    k.sigs = _Unreadable(f"{exc} ({m.rel}:{fn.name})")
+                    k.layouts = _Unreadable(f"{exc} ({m.rel}:{fn.name})")
                 if not (isinstance(call.args[1], ast.Constant) and isinstance(call.args[1].value, str)):
                     raise AnalysisError(f"gufunc layout is not a literal: {m.rel}:{fn.name}")
                 k.layout = call.args[1].value
@@ -196,7 +253,7 @@ def load_kernels(repo: Repo) -> Dict[str, Kernel]:
                 npar = len(fn.args.args)
                 if len(k.in_dims) + len(k.out_dims) != npar:
                     raise AnalysisError(f"layout arity != parameter count in {m.rel}:{fn.name}")
-                for s in k.sigs:
+                for s in ([] if isinstance(k.sigs, _Unreadable) else k.sigs):
                     if len(s) != npar:
                         raise AnalysisError(f"signature arity != parameter count in {m.rel}:{fn.name}")
             if fn.name in out:
